@@ -48,6 +48,7 @@ def gen_drops(rng):
     ops.append("conn o1 co v=4 cs=0")
     ops.append("sub o1 1 t/a|1")
     pid, tag, life, cur = 1, 0, 1, "s1"
+    o1_open = True
     for _ in range(rng.randint(5, 14)):
         r = rng.random()
         if r < 0.55:
@@ -68,8 +69,12 @@ def gen_drops(rng):
             k = rng.choice(["puback", "pubrec", "pubcomp"])
             ops.append(f"ack {cur} {k} {rng.choice(['all', 'k=0'])}")
         elif r < 0.86:
-            ops.append(rng.choice(["api term cs", "api term co", "close o1"]))
-            if ops[-1] == "api term cs": cur = None
+            choice = rng.choice(["api term cs", "api term co", "close o1"])
+            if choice != "api term cs" and not o1_open:
+                choice = "api term cs"
+            ops.append(choice)
+            if choice == "api term cs": cur = None
+            else: o1_open = False           # closed by the script, or by the broker when its session is terminated
         elif r < 0.92:
             ops.append(f"api backdate cs {rng.choice([100, 400, 8000])}")
             ops.append("api expire")
@@ -100,10 +105,8 @@ def gen_refused(rng):
         elif r < 0.7:
             n += 1
             v = rng.choice([3, 4, 5])
+            # refused: CONNECT and the failing CONNACK are booked under client id ""; the server closes the connection
             ops.append(f"conn b{n} cb{n} v={v} cs=1 user=u pass={rng.choice(['PW', 'p', 'pwx', '~'])}")
-            for _ in range(rng.randint(0, 3)):
-                pid += 1
-                ops.append(rng.choice([f"ping b{n}", f"sub b{n} {pid} t/#|1", f"pub b{n} t/a q=0 pid=0 tag=x{pid}"]))
         elif good:
             c = rng.choice(good)
             pid += 1
